@@ -122,11 +122,11 @@ class Unified:
         self.pullbacks = pullbacks
         self.inv = inv_replace or {}
         self._lowered = {}
+        self.directions = set()
 
     def vb(self, w, v, i):
-        shared = w.two_sided and self.cm.facet is not None and v != self.cm.facet
-        nm = "vtx" + ("{" + w.side_of_facet + "}" if (w.side_of_facet and not shared) else "")
-        return w.base_symbol((nm, (v, i), (), ()))
+        # layer-aware: constant under spatial layers ("vtx" is in spatial_const) but varied by the shape-derivative layer
+        return self.cm.vtx(w, v, i)
 
     def Jb(self, w, i, j):
         return N.sub(self.vb(w, j + 1, i), self.vb(w, 0, i))
@@ -205,13 +205,50 @@ class Unified:
             raise AssertionError("component out of range")
         raise N.Unsupported(f"push-forward kind {k}")
 
+    def direction_value(self, w, V, comp):
+        """A direction of a shape derivative lives in the (affine, P1 vector) coordinate space: V(X) = V_0 + sum_j X_j (V_{j+1} - V_0), V_v nodal values"""
+        nm = "dvtx_" + tname(V)
+        w.spatial_const.add(nm)
+        (i,) = comp
+        v0 = w.symbol(nm, (0, i), real=True)
+        tot = v0
+        for j in range(self.t):
+            tot = N.add(tot, N.mul(self.cm.X(w, j), N.sub(w.symbol(nm, (j + 1, i), real=True), v0)))
+        return tot
+
+    def op_hook(self, w, e, comp, env):
+        if isinstance(e, C.CoordinateDerivative):
+            inner_, xs, vs, cd = e.ufl_operands
+            if len(xs.ufl_operands) != 1 or not isinstance(xs.ufl_operands[0], C.SpatialCoordinate) or len(cd.ufl_operands) != 0:
+                raise N.Unsupported("coordinate derivative w.r.t. something other than one SpatialCoordinate")
+            V = vs.ufl_operands[0]
+            V = V.ufl_operands[0] if isinstance(V, C.ReferenceValue) else V
+            V = self.inv.get(V, V)
+            if not isinstance(V, (C.Coefficient, C.Argument)) or V.ufl_shape != (self.g,):
+                raise N.Unsupported("direction of a shape derivative must be a vector field in the coordinate space")
+            self.directions.add(V)
+            nm = "dvtx_" + tname(V)
+
+            def seed(desc, world, nm=nm):
+                name, c_, idx, dirs = desc
+                from ufv.den import split_side
+                base, sfx = split_side(name)
+                return (nm + sfx, c_, idx, dirs)
+            from ufv.den import GateauxLayer
+            return w.derive(GateauxLayer({"vtx": seed}), lambda w2: den(w2, inner_, comp, env))
+        return NotImplemented
+
     def hook(self, w, e, comp, env):
         if isinstance(e, C.ReferenceValue):
             f = e.ufl_operands[0]
             f = self.inv.get(f, f)
+            if f in self.directions:
+                return self.direction_value(w, f, comp)
             return w.symbol(f"rv_{tname(f)}", (flat(comp, e.ufl_shape) if e.ufl_shape else 0,))
         if isinstance(e, (C.Coefficient, C.Argument)):
             f = self.inv.get(e, e)
+            if f in self.directions:
+                return self.direction_value(w, f, comp)
             if self.pullbacks:
                 el = f.ufl_element()
                 return self.push(w, el, lambda q: w.symbol(f"rv_{tname(f)}", (q,)), comp)
@@ -238,6 +275,7 @@ class Unified:
         def f(symbolic, valuation):
             w = World(symbolic=symbolic, complex_mode=False, valuation=valuation, gdim=self.g)
             w.terminal_hook = self.hook
+            w.operator_hook = self.op_hook
             w.spatial_const |= {"vtx", "co", "qw"}
             w.real_names |= {"vtx", "co", "X", "qw"}
             w.x_via_X = (self.t, self.Kb)
@@ -312,6 +350,11 @@ def corpus(cellname, gdim):
             F["interior facets"] = jump(du) * jump(dv) * dS + dot(avg(grad(du)), n("+")) * jump(dv) * dS(1) + du * dv * dx
     if t == 2 and gdim == 2:
         F["inverse of a tensor"] = tr(inv(A)) * v * dx
+    if gdim == t and t <= 2:
+        dirn = Coefficient(W)        # direction of the domain perturbation: a field in the (P1 vector) coordinate space
+        F["shape derivative of a volume functional"] = derivative(f * g * dx, x, dirn)
+        F["shape derivative with gradients and a boundary term"] = derivative(inner(grad(g), grad(g)) * dx + g * g * ds, x, dirn)
+        F["shape derivative w.r.t. a test direction"] = derivative((g * g + dot(grad(g), ww)) * dx(1), x, TestFunction(W))
     return m, F
 
 
@@ -545,7 +588,7 @@ def build(run):
     run.add("pipeline/passes-and-order", pipeline, kind="proof")
 
     # ================================================================== (C) end-to-end
-    def end_to_end(cellname, gdim, fname, opts, facets):
+    def end_to_end(cellname, gdim, fname, opts, facets, numeric_only=False):
         def thunk():
             S.set_counters({k: 400 for k in S.COUNTER_FAMILIES})
             m, Fs = corpus(cellname, gdim)
@@ -583,6 +626,20 @@ def build(run):
                         tg = list(dict.fromkeys(ids_of(i_.subdomain_id())))
                     for s in tg:
                         want.setdefault((itype, s), []).append(i_.integrand())
+            # shape derivatives: directions, and the spec  D_V[ S e ] / S  (S = the measure's factor), which is what a coordinate derivative of an integral means
+            directions = set()
+            for key_, es in list(want.items()):
+                new_es = []
+                for e_ in es:
+                    if isinstance(e_, C.CoordinateDerivative):
+                        inner_, xs_, vs_, cd_ = e_.ufl_operands
+                        if isinstance(inner_, C.CoordinateDerivative):
+                            return undecided(f"{fname}: nested coordinate derivatives have no spec here")
+                        directions.add(vs_.ufl_operands[0])
+                        Sfull = ufl.as_ufl(scale_spec_expr(key_[0], m))
+                        e_ = C.Division(C.CoordinateDerivative(Sfull * inner_, xs_, vs_, cd_), Sfull) if not isinstance(Sfull, C.ScalarValue) else e_
+                    new_es.append(e_)
+                want[key_] = new_es
             nvc = 0
             backs = set()
             for key in sorted(set(got) | set(want), key=str):
@@ -590,6 +647,7 @@ def build(run):
                 two = itype.startswith("interior_facet")
                 for facet in (facets if "facet" in itype else [0]):
                     U = Unified(cellname, gdim, facet=facet, pullbacks=bool(opts.get("do_apply_function_pullbacks")), inv_replace=inv)
+                    U.directions = set(directions)
                     mk = U.mk(two_sided=two)
                     scale_e = ufl.as_ufl(scale_spec_expr(itype, m)) if opts.get("do_apply_integral_scaling") else ufl.as_ufl(1)
 
@@ -608,6 +666,15 @@ def build(run):
                                         f"but scale * original is {q['spec']} at a sample point",
                                         replay={"form": fname, "cell": cellname, "gdim": gdim, "options": opts, "key": list(map(str, key)), "facet": facet, **q}, reproduced=True,
                                         backend="numeric-search")
+                    if numeric_only:
+                        # the symbolic identity is too large for the solvers (minutes): exact agreement at random rational points only (bounded)
+                        q2 = quick(mk, sides, tries=4, seed=777)
+                        if q2 is not None:
+                            return violated(f"compute_form_data({fname}, {short(opts)}) on {cellname}@{gdim}d: {itype} integral over {s}: {q2['got']} vs {q2['spec']} at a sample point",
+                                            replay={"form": fname, "cell": cellname, "options": opts, **q2}, reproduced=True, backend="numeric-search")
+                        nvc += 1
+                        backs.add("numeric(6 random rational points)")
+                        continue
                     w = mk(True, None)
                     try:
                         a, b = sides(w)
@@ -623,6 +690,8 @@ def build(run):
                                         f"(counter-model {v.model})", replay={"form": fname, "cell": cellname, "options": opts, "key": list(map(str, key)), "model": v.model},
                                         reproduced=False, backend=v.backend)
                     return undecided(f"{fname}/{key}/{short(opts)}: {v.backend} {v.detail}")
+            if numeric_only:
+                return bounded_ok(nvc, "6 random rational points per equation (exact arithmetic up to sqrt/abs)", sample=f"{fname} on {cellname}@{gdim}d, {short(opts)}: {nvc} equations agree numerically")
             return proved("+".join(sorted(b for b in backs if b)) or "normaliser", vcs=max(nvc, 1), sample=f"{fname} on {cellname}@{gdim}d, {short(opts)}: {nvc} (type, subdomain, facet) equations")
         return thunk
 
@@ -630,10 +699,10 @@ def build(run):
         on = [k.replace("do_", "").replace("apply_", "") for k in FLAGS if opts.get(k)]
         return "+".join(on) or "none"
 
-    def quick(mk, sides, tries=2):
+    def quick(mk, sides, tries=2, seed=4242):
         import random
         from fractions import Fraction
-        rnd = random.Random(4242)
+        rnd = random.Random(seed)
         for _ in range(tries):
             vals = {}
 
@@ -670,7 +739,9 @@ def build(run):
                         continue        # tetrahedron with Piola maps / tensor algebra: thorough tier only (minutes per equation)
                 nfac = TDIM[cellname] + 1
                 facets = list(range(nfac)) if thorough else [0, nfac - 1]
-                run.add(f"end-to-end/{cellname}@{gdim}d/{fname}/{short(opts)}", end_to_end(cellname, gdim, fname, opts, facets), kind="values", budget=300 if not thorough else 1200)
+                numeric_only = fname.startswith("shape derivative") and TDIM[cellname] >= 2 and fname != "shape derivative of a volume functional"
+                run.add(f"end-to-end/{cellname}@{gdim}d/{fname}/{short(opts)}", end_to_end(cellname, gdim, fname, opts, facets, numeric_only),
+                        kind="bounded" if numeric_only else "values", budget=300 if not thorough else 1200)
 
     def canary():
         S.set_counters({k: 400 for k in S.COUNTER_FAMILIES})
